@@ -14,6 +14,11 @@ CHECKS = {
     "C08": ("DESIGN 4 C08", "Same symbolic runs as C07 judged by an independent byte-level reference of the documented format (both directions: encoder output read by the reference, reference bytes read by the decoder). The Java codec cannot be built or executed symbolically here and is outside the claim."),
 }
 
+CHECKS.update({
+    "C15": ("DESIGN 4 C15", "Tokeniser lemma decided by z3's regex theory over all characters and unbounded token length (pattern read from the current source), plus exhaustive path exploration of the real parser against an independent recursive-descent recogniser for every string over {a,b,<,>,,} up to length N (iff, exact tree, TypeNameError only). The characters are concrete per path because re.findall is C code."),
+    "C19": ("DESIGN 4 C19", "Assignment sequences over size / initialized_size / contents with the size values symbolic over the full 64-bit range, constructor and loader rejection with symbolic sizes, block address / contains_offset / contains_address with every integer symbolic, block contents over bounded offsets; each sequence ends with a message-level save/load."),
+})
+
 NOT_APPLICABLE = {
 }
 
